@@ -31,7 +31,7 @@ def path_specs(draw, tier):
     b = draw(crystal_with_supercell(max_atoms=24, max_unit=6, max_det=6, kinds=("hall", "proto", "centred", "p1")))
     b.update(key=draw(keys), nac=draw(st.sampled_from(["none", "none", "wang", "gonze"])), pmat=draw(st.sampled_from(["none", "auto"])),
              qlayout=draw(st.sampled_from(["list", "array", "column_view", "strided", "fortran", "transposed"])),
-             compact=draw(st.booleans()), mesh=draw(st.lists(st.integers(1, 3), min_size=3, max_size=3)),
+             compact=draw(st.booleans()), factor=draw(st.sampled_from(["default", "default", 1.0, 521.47083])), mesh=draw(st.lists(st.integers(1, 3), min_size=3, max_size=3)),
              qs=draw(st.lists(st.lists(st.sampled_from([0.0, 0.5, 0.25, -0.5, 1.0, 0.13, 0.37, -0.29, 1.21, 0.41]), min_size=3, max_size=3),
                               min_size=2, max_size=4)))
     return b
@@ -44,7 +44,8 @@ def _setup(spec):
     if c is None:
         return None, Out(nontrivial=False, classes=["discarded_overlap"])
     try:
-        ph = Phonopy(c["cell"], supercell_matrix=np.array(spec["smat"]), primitive_matrix=None if spec["pmat"] == "none" else "auto", log_level=0)
+        kw = {} if spec.get("factor", "default") == "default" else {"factor": spec["factor"]}
+        ph = Phonopy(c["cell"], supercell_matrix=np.array(spec["smat"]), primitive_matrix=None if spec["pmat"] == "none" else "auto", log_level=0, **kw)
     except Exception as e:
         return None, Out(nontrivial=False, rejected=True, classes=["ctor_rejected:" + type(e).__name__])
     rng = rng_from(spec["key"])
@@ -95,9 +96,13 @@ def run_paths(spec):
         dm.run(q)
         Dref.append(dm.dynamical_matrix.copy())
     Dref = np.array(Dref)
-    sc = max(np.abs(Dref).max(), 1e-300)
+    # natural scale of the dynamical matrix (never max|D| alone: D at the chosen q can be rounding noise)
+    nat = float(np.abs(ph.force_constants).max() / prim.masses.min())
+    if nat == 0:
+        return Out(nontrivial=False, classes=["discarded_flat"])
+    sc = max(np.abs(Dref).max(), nat)
     lam_ref = np.array([np.linalg.eigvalsh(D) for D in Dref])
-    lsc = max(np.abs(lam_ref).max(), 1e-300)
+    lsc = max(np.abs(lam_ref).max(), nat)
     base = {}
     for we, wg, wd in itertools.product((False, True), repeat=3):
         ph.run_qpoints(q_in_layout(qs, spec["qlayout"]), with_eigenvectors=we, with_group_velocities=wg, with_dynamical_matrices=wd)
@@ -173,9 +178,11 @@ def run_paths(spec):
                     return Out(ok=False, msg="band-structure group velocities (is_band_connection=%s) do not belong to the same modes as the frequencies "
                                "at q=%s: max diff %.3e" % (conn, path[0][i].tolist(), np.abs(g1 - g2).max()))
             # eigenvectors must be re-ordered consistently with the frequencies
+            if spec["nac"] != "none" and np.linalg.norm(np.linalg.inv(prim.cell) @ (path[0][i] - np.rint(path[0][i]))) < 5e-2:
+                continue  # at the zone centre a band path applies the NAC along the path direction, DynamicalMatrix.run(q) does not
             dm.run(path[0][i])
             Dq = dm.dynamical_matrix
-            r = np.abs(Dq @ eb[i] - eb[i] * _lam(fb[i], factor)).max() / max(np.abs(Dq).max(), 1e-300)
+            r = np.abs(Dq @ eb[i] - eb[i] * _lam(fb[i], factor)).max() / max(np.abs(Dq).max(), sc)
             if r > 1e-8:
                 return Out(ok=False, msg="band-structure eigenvectors (is_band_connection=%s) do not pair with the frequencies: residual %.3e" % (conn, r))
     # meshes: stored and iterated, with and without eigenvectors
@@ -189,6 +196,23 @@ def run_paths(spec):
         ok = _clean(md["frequencies"][i])
         if ok.any() and np.abs(md["group_velocities"][i][ok] - qd2["group_velocities"][i][ok]).max() > 1e-7 * max(1.0, np.abs(qd2["group_velocities"][i][ok]).max()):
             return Out(ok=False, msg="mesh group velocities differ from run_qpoints group velocities")
+    # results reported for the mesh must still be the mesh's phonons after an unrelated call of the same size (no shared result buffers)
+    snap = {k: np.array(md[k], copy=True) for k in ("frequencies", "group_velocities", "eigenvectors", "qpoints")}
+    qd2_gv = np.array(qd2["group_velocities"], copy=True)
+    other_q = np.array(md["qpoints"]) + np.array([0.137, -0.211, 0.173])
+    ph.run_qpoints(other_q, with_group_velocities=True, with_eigenvectors=True)
+    qd3 = ph.get_qpoints_dict()
+    md_again = ph.get_mesh_dict()
+    for k in snap:
+        for name, cur in (("the dict handed out earlier", md[k]), ("get_mesh_dict() called again", md_again[k])):
+            if np.abs(np.array(cur) - snap[k]).max() > 0:
+                return Out(ok=False, msg="mesh %s changed after an unrelated run_qpoints call with the same number of q-points (%s): max diff %.3e"
+                           % (k, name, np.abs(np.array(cur) - snap[k]).max()))
+    if np.abs(np.array(qd2["group_velocities"]) - qd2_gv).max() > 0:
+        return Out(ok=False, msg="group velocities handed out by get_qpoints_dict() changed after a later run_qpoints call")
+    ph.run_mesh(spec["mesh"], is_mesh_symmetry=False, with_eigenvectors=True, with_group_velocities=True)
+    if np.abs(np.array(qd3["group_velocities"]) - np.array(ph.get_qpoints_dict()["group_velocities"])).max() > 0:
+        return Out(ok=False, msg="q-point group velocities changed after a later run_mesh call")
     for we in (True, False):
         try:
             ph.init_mesh(spec["mesh"], is_mesh_symmetry=False, use_iter_mesh=True, with_eigenvectors=we)
@@ -203,7 +227,8 @@ def run_paths(spec):
         if not we and any(e is not None for e in ei):
             return Out(ok=False, msg="iterated mesh returned eigenvectors although not requested")
     nb = 3 * len(prim)
-    return Out(ok=True, nontrivial=nb >= 6 and nq >= 2, classes=["nac:" + spec["nac"], "qlayout:" + spec["qlayout"], "compact" if spec["compact"] else "full"])
+    return Out(ok=True, nontrivial=nb >= 6 and nq >= 2, classes=["nac:" + spec["nac"], "qlayout:" + spec["qlayout"], "compact" if spec["compact"] else "full",
+                        "factor:%s" % spec.get("factor", "default")])
 
 
 # ----------------------------------------------------------------------- files
